@@ -48,7 +48,7 @@ type rmsg struct {
 	copy int
 }
 
-var rabinMenu = []string{"deal-extra-coefficient", "commits-fit-all-but-one", "deal-share-off-poly", "deal-undecryptable", "deal-misdirected", "deal-silent-to-one", "deal-none",
+var rabinMenu = []string{"commits-fit-t-minus-1", "deal-extra-coefficient", "commits-fit-all-but-one", "deal-share-off-poly", "deal-undecryptable", "deal-misdirected", "deal-silent-to-one", "deal-none",
 	"just-missing", "just-wrong-share", "resp-false-complaint", "commits-inconsistent", "commits-missing", "complaint-commits-forged", "reconstruct-missing"}
 
 func rviol(oracle, class, format string, a ...any) *core.Violation {
@@ -149,7 +149,7 @@ func runRabin(t *core.Tape, tier string, info *core.RunInfo) *core.Violation {
 				p.faulty, p.beh = "byz", map[string]bool{}
 				for b := 0; b < 1+t.Intn("cfg.faulty", 2); b++ {
 					k := rabinMenu[t.Intn("cfg.faulty", len(rabinMenu))]
-					if !kfGate && (k == "deal-undecryptable" || k == "deal-misdirected" || k == "deal-silent-to-one") {
+					if !kfGate && (k == "deal-undecryptable" || k == "deal-misdirected" || k == "deal-silent-to-one" || k == "commits-fit-t-minus-1") {
 						continue
 					}
 					p.beh[k] = true
@@ -160,6 +160,11 @@ func runRabin(t *core.Tape, tier string, info *core.RunInfo) *core.Violation {
 				// the quick tier (seed 1) missed the revert of fix 55ed310
 				if t.Bool("cfg.couple", 200) {
 					p.beh["deal-share-off-poly"] = true
+				}
+				if kfGate && t.Bool("cfg.couple3", 350) {
+					// the clean form of the reconstruction scenario (one deviation only), so that the
+					// reference model of the reconstruction applies
+					p.beh = map[string]bool{"commits-fit-t-minus-1": true}
 				}
 				if t.Bool("cfg.couple2", 200) {
 					p.beh["commits-fit-all-but-one"] = true // the only road into complaint/reconstruct commits
@@ -235,6 +240,12 @@ func runRabin(t *core.Tape, tier string, info *core.RunInfo) *core.Violation {
 		top kyber.Point
 	}
 	extraCoef := map[int]*extraDeal{}
+	forgeReconstruct := map[int]bool{}
+	type forgeData struct {
+		S      []int
+		forged kyber.Scalar
+	}
+	forgeInfo := map[int]*forgeData{}
 	// ---- phase 0: deals ----
 	for _, p := range ps {
 		if p.dead(0) {
@@ -587,6 +598,53 @@ func runRabin(t *core.Tape, tier string, info *core.RunInfo) *core.Violation {
 							}
 						}
 					}
+					if p.beh["commits-fit-t-minus-1"] && !p.beh["commits-fit-all-but-one"] {
+						// F' = F + c*prod_{j in S}(x - x_j) with |S| = t-1 honest parties: the right number of
+						// coefficients, fits the parties in S, misses every other honest party. Those complain, the
+						// parties in S answer with their shares - t-1 of them - and the dealer itself supplies the
+						// t-th "share" (below): nothing checks a revealed share.
+						var S []int
+						for _, k := range t.Perm("byz.pick", n) {
+							if q := ps[k]; q.honest() && q.id != p.id && !q.dead(4) && len(S) < th-1 {
+								S = append(S, q.id)
+							}
+						}
+						victims := 0
+						for _, q := range ps {
+							if q.honest() && q.id != p.id && !q.dead(4) {
+								victims++
+							}
+						}
+						victims -= len(S)
+						if len(S) == th-1 && victims >= 1 {
+							poly := []*big.Int{big.NewInt(1)}
+							for _, id := range S {
+								xj := big.NewInt(int64(id) + 1)
+								nx := make([]*big.Int, len(poly)+1)
+								for k := range nx {
+									nx[k] = new(big.Int)
+								}
+								for k, c := range poly {
+									nx[k+1].Add(nx[k+1], c)
+									nx[k].Sub(nx[k], new(big.Int).Mul(c, xj))
+								}
+								poly = nx
+							}
+							sc = copyRabinMsg(sc).(*rdkg.SecretCommits)
+							cst := kit.ScalarFromTape(g, t, "byz.val")
+							if cst.Equal(g.Scalar().Zero()) {
+								cst = g.Scalar().One()
+							}
+							for k, c := range poly {
+								term := g.Point().Mul(g.Scalar().Mul(cst, kit.BigScalar(g, c)), nil)
+								sc.Commitments[k] = g.Point().Add(sc.Commitments[k], term)
+							}
+							sc.Signature, _ = schnorr.Sign(g, p.priv, sc.Hash(g))
+							forgeReconstruct[p.id] = true
+							forgeInfo[p.id] = &forgeData{S: append([]int{}, S...)}
+							info.ByzFired("commits-fit-t-minus-1")
+						}
+					}
 					if p.beh["commits-inconsistent"] {
 						sc = copyRabinMsg(sc).(*rdkg.SecretCommits)
 						k := t.Intn("byz.pick", len(sc.Commitments))
@@ -597,6 +655,19 @@ func runRabin(t *core.Tape, tier string, info *core.RunInfo) *core.Violation {
 				}
 				sentCommits[p.id] = kit.CopyPoints(g, sc.Commitments)
 				bcastNext(p.id, sc)
+			}
+		case 5:
+			// the accused dealer "reveals" a share of its own deal to itself: any value
+			for _, p := range ps {
+				if p.faulty == "byz" && forgeReconstruct[p.id] {
+					fv := kit.ScalarFromTape(g, t, "byz.val")
+					forgeInfo[p.id].forged = fv
+					rc := &rdkg.ReconstructCommits{SessionID: kit.CopyBytes(p.gen.VerifDealer().SessionID()), Index: uint32(p.id), DealerIndex: uint32(p.id),
+						Share: &share.PriShare{I: uint32(p.id), V: kit.CopyScalar(g, fv)}}
+					rc.Signature, _ = schnorr.Sign(g, p.priv, rc.Hash(g))
+					bcastNext(p.id, rc)
+					info.ByzFired("reconstruct-share-forged-by-the-dealer")
+				}
 			}
 		case 4:
 			// forged complaint commits by Byzantine parties
@@ -687,6 +758,60 @@ func runRabin(t *core.Tape, tier string, info *core.RunInfo) *core.Violation {
 			}
 		}
 	}
+	// Reference model of the reconstruction (known finding C11-rabin-reconstruct-share-unverified: the
+	// forged share IS accepted): when the only deviation of the run is one dealer D with
+	// commits-fit-t-minus-1, every party interpolates D's polynomial through the true shares of the t-1
+	// parties in S and D's forged value. Whatever else comes out is a different defect (seed C11i revealed
+	// the blinding shares) and must not hide behind the known finding.
+	if len(forgeInfo) == 1 {
+		var D int
+		var fd *forgeData
+		for k, v := range forgeInfo {
+			D, fd = k, v
+		}
+		clean := fd.forged != nil && len(rc) == th
+		for _, p := range ps {
+			if p.id != D && !p.honest() {
+				clean = false
+			}
+			if p.id == D && len(p.beh) != 1 {
+				clean = false
+			}
+		}
+		for _, q := range rq {
+			if _, ok := sentCommits[int(q)]; !ok {
+				clean = false
+			}
+		}
+		if clean {
+			var xs, ys []*big.Int
+			vd := ps[D].gen.VerifDealer()
+			for _, j := range fd.S {
+				plain, err := vd.PlaintextDeal(j)
+				if err != nil {
+					clean = false
+					break
+				}
+				xs, ys = append(xs, big.NewInt(int64(j)+1)), append(ys, kit.ScalarBig(plain.SecShare.V))
+			}
+			xs, ys = append(xs, big.NewInt(int64(D)+1)), append(ys, kit.ScalarBig(fd.forged))
+			if clean {
+				coef := interpolate(xs, ys)
+				for k := 0; k < th; k++ {
+					want := g.Point().Mul(kit.BigScalar(g, coef[k]), nil)
+					for _, q := range rq {
+						if int(q) != D {
+							want = g.Point().Add(want, sentCommits[int(q)][k])
+						}
+					}
+					if wb, _ := want.MarshalBinary(); !bytes.Equal(wb, rc[k]) {
+						return rviol("reconstruct", "reconstruct/differs-from-the-revealed-shares", "dealer %d's commitments were reconstructed from the shares of %v and its own forged share, but coefficient %d of the common polynomial is not what those shares interpolate to", D, fd.S, k)
+					}
+				}
+				info.Probe("reconstruction-matches-the-revealed-shares")
+			}
+		}
+	}
 	if len(rc) != th {
 		return rviol("shares", "shares/poly-length", "commitment polynomial has %d coefficients, t=%d", len(rc), th)
 	}
@@ -753,7 +878,7 @@ func runRabin(t *core.Tape, tier string, info *core.RunInfo) *core.Violation {
 	okc := true
 	for _, q := range rq {
 		c, ok := sentCommits[int(q)]
-		if !ok || (ps[q].faulty == "byz" && (ps[q].beh["commits-inconsistent"] || ps[q].beh["commits-fit-all-but-one"])) {
+		if !ok || (ps[q].faulty == "byz" && (ps[q].beh["commits-inconsistent"] || ps[q].beh["commits-fit-all-but-one"] || ps[q].beh["commits-fit-t-minus-1"])) {
 			okc = false
 			break
 		}
@@ -772,4 +897,40 @@ func sortedQual(d *rdkg.DistKeyGenerator) []uint32 {
 	q := d.QUAL()
 	sort.Slice(q, func(i, j int) bool { return q[i] < q[j] })
 	return q
+}
+
+// interpolate returns the coefficients (constant term first) of the polynomial of degree len(xs)-1 over
+// Z_L through the points (xs[i], ys[i]).
+func interpolate(xs, ys []*big.Int) []*big.Int {
+	n := len(xs)
+	out := make([]*big.Int, n)
+	for i := range out {
+		out[i] = new(big.Int)
+	}
+	for i := 0; i < n; i++ {
+		num := []*big.Int{big.NewInt(1)}
+		den := big.NewInt(1)
+		for j := 0; j < n; j++ {
+			if j == i {
+				continue
+			}
+			nx := make([]*big.Int, len(num)+1)
+			for k := range nx {
+				nx[k] = new(big.Int)
+			}
+			for k, c := range num { // multiply by (x - xs[j])
+				nx[k+1].Add(nx[k+1], c)
+				nx[k].Sub(nx[k], new(big.Int).Mul(c, xs[j]))
+			}
+			num = nx
+			den.Mul(den, new(big.Int).Sub(xs[i], xs[j]))
+			den.Mod(den, kit.L)
+		}
+		f := new(big.Int).Mul(ys[i], new(big.Int).ModInverse(den, kit.L))
+		for k := range num {
+			out[k].Add(out[k], new(big.Int).Mul(num[k], f))
+			out[k].Mod(out[k], kit.L)
+		}
+	}
+	return out
 }
